@@ -1,4 +1,5 @@
 import IndicatifModel.Model.Locks
+import IndicatifModel.Proofs.LocksProgress
 /-!
 # C08 — No deadlock; steady-tick thread lifecycle (lock-order part)
 -/
@@ -24,4 +25,246 @@ bar state. -/
 theorem C08_update_unordered : ∀ inMulti ticker : Bool, ordered [] (program false .update inMulti ticker) = false := by
   decide
 
+/-! ### From the lock-order table to deadlock freedom
+
+Lock *instances*: resource `5·n + rank c` is the `n`-th lock of class `c` (bar `n`'s state, multi `n`'s
+state, …), so that the rank of a resource is `r % 5`; `J` has rank 1 and no instances. A call site says
+which instances a call works on and which thread is the bar's ticker. -/
+
+def res (c : LockClass) (n : Nat) : Nat := 5 * n + rank c
+def rankOf (r : Nat) : Nat := r % 5
+
+theorem rank_lt (c : LockClass) : rank c < 5 := by cases c <;> decide
+theorem rankOf_res (c : LockClass) (n : Nat) : rankOf (res c n) = rank c := by
+  have := rank_lt c
+  simp only [rankOf, res]; omega
+
+structure Site where
+  call : Call
+  inMulti : Bool
+  ticker : Bool
+  inst : LockClass → Nat     -- which instance of each lock class the call works on
+  tk : Nat                   -- index of the thread that is this bar's steady ticker
+
+def toActs (inst : LockClass → Nat) (tk : Nat) : LAct → List LK.Act
+  | .acq c | .racq c => [.acq (res c (inst c))]
+  | .rel c | .rrel c => [.rel (res c (inst c))]
+  | .join => [.join tk]
+  | .notify | .spawn => []
+
+theorem res_inj (inst : LockClass → Nat) (a b : LockClass) (h : res a (inst a) = res b (inst b)) : a = b := by
+  have h1 := rankOf_res a (inst a)
+  have h2 := rankOf_res b (inst b)
+  rw [h] at h1
+  have : rank a = rank b := by rw [← h1, ← h2]
+  cases a <;> cases b <;> simp_all [rank]
+
+theorem map_erase (inst : LockClass → Nat) (held : List LockClass) (c : LockClass) :
+    (held.erase c).map (fun x => res x (inst x)) = (held.map (fun x => res x (inst x))).erase (res c (inst c)) := by
+  induction held with
+  | nil => rfl
+  | cons h hs ih =>
+    by_cases hc : h = c
+    · subst hc; simp
+    · have hne : res h (inst h) ≠ res c (inst c) := fun he => hc (res_inj inst h c he)
+      have hne' : (h == c) = false := by simpa using hc
+      have hne'' : (res h (inst h) == res c (inst c)) = false := by simpa using hne
+      simp only [List.erase_cons, hne', List.map_cons, hne'', Bool.false_eq_true, if_false, ih]
+
+/-- a program that passes the executable lock-order check is disciplined in the sense of `LK.Ord`, whatever
+instances it works on -/
+theorem ordered_ord (inst : LockClass → Nat) (tk : Nat) : ∀ (p : List LAct) (held : List LockClass),
+    ordered held p = true → LK.Ord rankOf 1 (held.map (fun x => res x (inst x))) (p.flatMap (toActs inst tk)) := by
+  intro p
+  induction p with
+  | nil => intro held h; simp only [ordered, List.isEmpty_iff] at h; subst h; simp [LK.Ord]
+  | cons a p ih =>
+    intro held h
+    have hall : ∀ (c : LockClass), held.all (fun h => decide (rank h < rank c)) = true →
+        ∀ x ∈ held.map (fun x => res x (inst x)), rankOf x < rankOf (res c (inst c)) := by
+      intro c hc x hx
+      obtain ⟨y, hy, rfl⟩ := List.mem_map.1 hx
+      rw [rankOf_res, rankOf_res]
+      exact of_decide_eq_true (List.all_eq_true.1 hc y hy)
+    rw [List.flatMap_cons]
+    cases a with
+    | acq c =>
+      simp only [ordered, Bool.and_eq_true] at h
+      exact ⟨hall c h.1, ih (c :: held) h.2⟩
+    | racq c =>
+      simp only [ordered, Bool.and_eq_true] at h
+      exact ⟨hall c h.1, ih (c :: held) h.2⟩
+    | rel c =>
+      simp only [ordered, Bool.and_eq_true] at h
+      refine ⟨List.mem_map.2 ⟨c, by simpa using h.1, rfl⟩, ?_⟩
+      have := ih (held.erase c) h.2
+      rw [map_erase] at this
+      exact this
+    | rrel c =>
+      simp only [ordered, Bool.and_eq_true] at h
+      refine ⟨List.mem_map.2 ⟨c, by simpa using h.1, rfl⟩, ?_⟩
+      have := ih (held.erase c) h.2
+      rw [map_erase] at this
+      exact this
+    | join =>
+      simp only [ordered, Bool.and_eq_true] at h
+      refine ⟨?_, ih held h.2⟩
+      intro x hx
+      obtain ⟨y, hy, rfl⟩ := List.mem_map.1 hx
+      rw [rankOf_res]
+      exact of_decide_eq_true (List.all_eq_true.1 h.1 y hy)
+    | notify => exact ih held (by simpa [ordered] using h)
+    | spawn => exact ih held (by simpa [ordered] using h)
+
+/-- the lock actions of one public call at one call site -/
+def Site.acts (s : Site) : List LK.Act := (program currentF8 s.call s.inMulti s.ticker).flatMap (toActs s.inst s.tk)
+
+theorem site_ord (s : Site) (hc : s.call ∈ allCalls) : LK.Ord rankOf 1 [] s.acts := by
+  have := ordered_ord s.inst s.tk (program currentF8 s.call s.inMulti s.ticker) [] (C08_calls_ordered s.call hc s.inMulti s.ticker)
+  simpa [Site.acts] using this
+
+/-- a user thread: any sequence of public calls -/
+def userActs (sites : List Site) : List LK.Act := sites.flatMap Site.acts
+
+theorem user_ord : ∀ (sites : List Site), (∀ s ∈ sites, s.call ∈ allCalls) → LK.Ord rankOf 1 [] (userActs sites) := by
+  intro sites
+  induction sites with
+  | nil => intro _; simp [userActs, LK.Ord]
+  | cons s ss ih =>
+    intro h
+    have h1 := site_ord s (h s (by simp))
+    have h2 := ih (fun x hx => h x (by simp [hx]))
+    simpa [userActs] using LK.ord_append rankOf 1 s.acts (userActs ss) [] h1 h2
+
+/-- a steady-ticker thread: any number of loop iterations -/
+def tickerActs (inMulti : Bool) (inst : LockClass → Nat) (n : Nat) : List LK.Act :=
+  (List.replicate n (tickerIteration inMulti)).flatten.flatMap (toActs inst 0)
+
+theorem ticker_ord_high (inMulti : Bool) (inst : LockClass → Nat) (n : Nat) :
+    LK.Ord rankOf 1 [] (tickerActs inMulti inst n) ∧ ∀ a ∈ tickerActs inMulti inst n, LK.highAct rankOf 1 a := by
+  have hit := C08_ticker_high inMulti
+  have hone : LK.Ord rankOf 1 [] ((tickerIteration inMulti).flatMap (toActs inst 0)) := by
+    simpa using ordered_ord inst 0 (tickerIteration inMulti) [] hit.1
+  constructor
+  · induction n with
+    | zero => simp [tickerActs, LK.Ord]
+    | succ n ih =>
+      have : tickerActs inMulti inst (n + 1) = (tickerIteration inMulti).flatMap (toActs inst 0) ++ tickerActs inMulti inst n := by
+        simp [tickerActs, List.replicate_succ]
+      rw [this]
+      exact LK.ord_append rankOf 1 _ _ [] hone ih
+  · intro a ha
+    simp only [tickerActs, List.mem_flatMap, List.mem_flatten, List.mem_replicate] at ha
+    obtain ⟨la, ⟨l, ⟨_, rfl⟩, hla⟩, hal⟩ := ha
+    have hx := List.all_eq_true.1 hit.2 la hla
+    cases la with
+    | acq c => simp only [toActs, List.mem_singleton] at hal; subst hal; simp only [LK.highAct, rankOf_res]; exact of_decide_eq_true hx
+    | racq c => simp only [toActs, List.mem_singleton] at hal; subst hal; simp only [LK.highAct, rankOf_res]; exact of_decide_eq_true hx
+    | rel c => simp only [toActs, List.mem_singleton] at hal; subst hal; simp [LK.highAct]
+    | rrel c => simp only [toActs, List.mem_singleton] at hal; subst hal; simp [LK.highAct]
+    | join => simp at hx
+    | notify => simp [toActs] at hal
+    | spawn => simp [toActs] at hal
+
+/-- a system of threads running public calls and steady tickers -/
+inductive Role where
+  | user (sites : List Site)
+  | ticker (inMulti : Bool) (inst : LockClass → Nat) (iterations : Nat)
+
+def Role.thread : Role → LK.Thread
+  | .user sites => { prog := userActs sites, held := [] }
+  | .ticker m inst n => { prog := tickerActs m inst n, held := [] }
+
+/-- every call is one of the public calls, and every `join` targets a ticker thread -/
+def WellFormed (roles : List Role) : Prop :=
+  ∀ r ∈ roles, ∀ sites, r = .user sites → ∀ s ∈ sites, s.call ∈ allCalls ∧
+    ∃ m inst n, roles[s.tk]? = some (.ticker m inst n)
+
+theorem join_mem_user (sites : List Site) (k : Nat) (h : LK.Act.join k ∈ userActs sites) : ∃ s ∈ sites, s.tk = k := by
+  simp only [userActs, List.mem_flatMap, Site.acts] at h
+  obtain ⟨s, hs, la, _, hal⟩ := h
+  refine ⟨s, hs, ?_⟩
+  cases la <;> simp [toActs] at hal
+  exact hal.symm
+
+/-- **C08, no deadlock.** Any number of threads, each performing any sequence of public calls on any bars
+and `MultiProgress`es (with or without steady tickers, inside a multi or not), together with the steady
+ticker threads themselves: in every state reachable by executing lock actions, as long as some thread
+has not finished, some thread can take its next step. -/
+theorem C08_no_deadlock (roles : List Role) (hwf : WellFormed roles) (s : LK.Sys)
+    (hr : LK.Reach (roles.map Role.thread) s) (i : Nat) (t : LK.Thread) (hi : s[i]? = some t) (hne : t.prog ≠ []) :
+    ∃ j, LK.enabled s j := by
+  refine LK.no_deadlock rankOf 1 4 (fun r => by simp only [rankOf]; omega) (by omega) (roles.map Role.thread) s ?_ hr i t hi hne
+  constructor
+  · intro j u hu
+    rw [List.getElem?_map] at hu
+    cases hr : roles[j]? with
+    | none => simp [hr] at hu
+    | some r =>
+      simp only [hr, Option.map_some, Option.some.injEq] at hu
+      subst hu
+      have hmem : r ∈ roles := List.mem_of_getElem? hr
+      cases r with
+      | user sites => exact user_ord sites (fun x hx => (hwf _ hmem sites rfl x hx).1)
+      | ticker m inst n => exact (ticker_ord_high m inst n).1
+  · intro j u k hu hk
+    rw [List.getElem?_map] at hu
+    cases hr : roles[j]? with
+    | none => simp [hr] at hu
+    | some r =>
+      simp only [hr, Option.map_some, Option.some.injEq] at hu
+      subst hu
+      have hmem : r ∈ roles := List.mem_of_getElem? hr
+      cases r with
+      | user sites =>
+        obtain ⟨st, hst, rfl⟩ := join_mem_user sites k hk
+        obtain ⟨m, inst, n, htk⟩ := (hwf _ hmem sites rfl st hst).2
+        refine ⟨(Role.ticker m inst n).thread, by rw [List.getElem?_map, htk]; rfl, ?_⟩
+        exact ⟨by simp [Role.thread], (ticker_ord_high m inst n).2⟩
+      | ticker m inst n =>
+        exact absurd ((ticker_ord_high m inst n).2 _ hk) (by simp [LK.highAct])
+
+/-- non-vacuity: two user threads and a ticker on one bar inside a multi -/
+example : WellFormed [.user [⟨.update, true, true, fun _ => 0, 2⟩, ⟨.disableSteadyTick, true, true, fun _ => 0, 2⟩],
+    .user [⟨.finish, true, true, fun _ => 0, 2⟩], .ticker true (fun _ => 0) 3] := by
+  intro r hr sites hs s hsm
+  simp only [List.mem_cons, List.mem_nil_iff, or_false] at hr
+  rcases hr with rfl | rfl | rfl
+  · cases hs
+    simp only [List.mem_cons, List.mem_nil_iff, or_false] at hsm
+    rcases hsm with rfl | rfl <;> exact ⟨by decide, true, fun _ => 0, 3, rfl⟩
+  · cases hs
+    simp only [List.mem_cons, List.mem_nil_iff, or_false] at hsm
+    subst hsm
+    exact ⟨by decide, true, fun _ => 0, 3, rfl⟩
+  · cases hs
+
 end IndicatifModel.Locks
+
+namespace IndicatifModel.StopProtocol
+
+/-- the enumeration of the protocol's state space is closed under every transition (with and without the
+timeout), so the statements below really quantify over every reachable state -/
+theorem C08_protocol_closed : ∀ timeout : Bool, ∀ s ∈ allStates timeout, ∀ s' ∈ steps timeout s, s' ∈ allStates timeout := by
+  decide +kernel
+
+/-- **No lost wake-up, no waiting for the interval.** With the timeout transition removed (an interval of
+any length), in every reachable state in which the stop request has completed, the ticker thread exits
+within four of its own steps; and no reachable state is stuck before both sides are done. -/
+theorem C08_stop_prompt :
+    (∀ s ∈ allStates false, s.st = .done → (tickerAlone 4 s).tk = .exited) ∧
+    (∀ s ∈ allStates false, (s.tk ≠ .exited ∨ s.st ≠ .done) → s.st = .done ∨ steps false s ≠ []) := by
+  decide +kernel
+
+/-- mutual exclusion of the flag's mutex, and the flag is only ever set (never cleared) -/
+theorem C08_protocol_mutex : ∀ timeout : Bool, ∀ s ∈ allStates timeout,
+    (s.tk = .check ↔ s.own = .ticker) ∧ (s.st = .locked ↔ s.own = .stopper) ∧ (s.st = .done → s.flag = true) := by
+  decide +kernel
+
+/-- non-vacuity: the state space is not trivial, and contains the critical interleaving (the ticker has
+checked the flag and waits, the stopper sets the flag afterwards) -/
+example : 20 ≤ (allStates false).length ∧
+    ({ flag := true, tk := .waiting, own := .free, st := .unlocked, again := 1 } : PS) ∈ allStates false := by
+  decide +kernel
+
+end IndicatifModel.StopProtocol
